@@ -355,11 +355,13 @@ open AslModel.ThreadEnd in
 /-- **thread_end_safe.**  With `ended()` first and the flag written through the thread's own reference: in every
     interleaving of the ending thread with an owner that polls `finished()` and deletes the object as soon as it is
     true — and also for a self-owned object that deletes itself in `ended()` — neither the deleted object nor the
-    released state is ever used, and the state's reference count is exactly (object alive) + (thread not over). -/
+    released state is ever used, and the state's reference count is exactly (object alive) + (thread not over) — the
+    flag store and the release of the thread's reference are separate steps, so the owner's poll and delete may fall
+    between them.  (The model starts when the worker already holds its reference: see the scope note in the model.) -/
 theorem thread_end_safe (selfOwned : Bool) (r : List Act) :
     (run (init true true selfOwned) r).bad = false ∧
     (run (init true true selfOwned) r).stateRefs =
-      (if (run (init true true selfOwned) r).objAlive then 1 else 0) + (if (run (init true true selfOwned) r).wpc < 3 then 1 else 0) := by
+      (if (run (init true true selfOwned) r).objAlive then 1 else 0) + (if (run (init true true selfOwned) r).wpc < 4 then 1 else 0) := by
   have h := AslProofs.ThreadEnd.run_inv r _ (AslProofs.ThreadEnd.init_inv selfOwned)
   exact ⟨AslProofs.ThreadEnd.inv_not_bad _ h, AslProofs.ThreadEnd.inv_refs _ h⟩
 
@@ -375,8 +377,8 @@ example : (run (init true false true) [Act.worker, Act.worker, Act.worker]).bad 
 
 open AslModel.ThreadEnd in
 /-- non-vacuity: the polling owner does get to delete the object, and the state is then released -/
-example : let c := run (init true true false) [Act.worker, Act.worker, Act.worker, Act.poll, Act.delete]
-    c.owner = 2 ∧ c.stateRefs = 0 ∧ c.bad = false := by decide
+example : let c := run (init true true false) [Act.worker, Act.worker, Act.worker, Act.poll, Act.delete, Act.worker]
+    c.owner = 2 ∧ c.stateRefs = 0 ∧ c.bad = false ∧ c.wpc = 4 := by decide
 
 end StartAndEnd
 
